@@ -16,14 +16,16 @@ import (
 	"os"
 )
 
-// printable ASCII without '=', quotes, '$', backslash, backquote: safe in a name/value of the
-// environment and inside a double-quoted shell word (for the native replay)
+// printable ASCII without quotes, '$', backslash, backquote: safe in a value of the environment
+// and inside a double-quoted shell word (for the native replay). '=' is admitted: a value such as
+// "-X main.version=1" is ordinary (the alphabet once excluded it, and a seeded change that
+// dropped every pair with a second '=' went unnoticed, DESIGN.md 9.5); names are fixed.
 var tblEnvByte [256]bool
 
 func init() {
-	for c := 0x21; c < 0x7f; c++ {
+	for c := 0x20; c < 0x7f; c++ { // blank included: values with spaces are ordinary
 		switch byte(c) {
-		case '=', '"', '\'', '$', '\\', '`':
+		case '"', '\'', '$', '\\', '`':
 		default:
 			tblEnvByte[c] = true
 		}
